@@ -362,6 +362,17 @@ func main() {
 			back := genbank.Parse(genbank.Build(s))
 			return back.Meta.References[0].Index == "7", fmt.Sprintf("index read back as %q want 7", back.Meta.References[0].Index)
 		}},
+		{"genbank-quote-at-value-end", func() (bool, string) {
+			var x poly.Sequence
+			x.Sequence = "acgtacgtac"
+			x.Features = []poly.Feature{{Type: "misc_feature", GbkLocationString: "1..4", Attributes: map[string]string{"note": "he said \"hi\""}}}
+			back := genbank.Parse(genbank.Build(x))
+			got := ""
+			if len(back.Features) == 1 {
+				got = back.Features[0].Attributes["note"]
+			}
+			return got == "he said \"hi\"", fmt.Sprintf("note read back as %q want %q", got, "he said \"hi\"")
+		}},
 		{"genbank-source-without-organism", func() (bool, string) {
 			s := genbank.Parse([]byte("LOCUS       x 4 bp DNA linear\nSOURCE      some source\nREFERENCE   1  (bases 1 to 4)\n  AUTHORS   A\nFEATURES             Location/Qualifiers\nORIGIN\n        1 acgt\n//\n"))
 			return s.Meta.Source == "some source" && s.Meta.Organism == "" && len(s.Meta.References) == 1 && s.Meta.References[0].Range == "(bases 1 to 4)",
